@@ -76,6 +76,9 @@ def callOK (c : Caller) : WOp → Ans → Bool
   | .ca a, .okMut _ _ =>
       may c (req "write" "authorizations" none (some a.org)) && may c (req "write" "users" (some a.user) none) &&
       a.perms.all (may c)
+  | .ca2 a, .okMut _ _ =>
+      may c (req "write" "authorizations" none (some a.org)) && may c (req "write" "users" (some a.user) none) &&
+      a.perms.all (may c)
   | .ua id _, .okMut _ (some (org, user)) => mayWriteAuth c id org user
   | .da id, .okMut _ (some (org, user)) => mayWriteAuth c id org user
   -- anything else (a success without the target's attributes, a read answered like a mutation…) is not accepted
